@@ -100,10 +100,11 @@ def usOk (r : NameRow) : Bool :=
     readingMatches u k c && Nat.beq r.usSym (symOf u)
   | _ => false
 
-/-- `unyt.<name>`: shadowed (then it is not a unit attribute: no claim, and the live attribute is
-    indeed not a Unit), else the `unit_symbols` object -/
+/-- `unyt.<name>`: shadowed — allowed only for the names the reference documents as names of
+    physical constants; it is then not a unit attribute (no claim) and the live attribute is indeed
+    not a Unit — else the `unit_symbols` object, which must be there -/
 def topOk (r : NameRow) : Bool :=
-  if memN r.name shadowedC then Nat.beq r.topSym absent
+  if memN r.name shadowedC then Nat.beq r.topSym absent && memN r.name Ref.C14.shadowedByConstants
   else match refVerdict r.name with
     | .unique k c =>
       let u := topLevelAttr ctxBits shadowedC r.name
@@ -127,7 +128,9 @@ def nameCheck (full : Bool) (r : NameRow) : Bool :=
     (readingMatches (stringReading ctxBits r.name) k c || (!full && excluded r.name))
     && (match unitSymbolsAttr ctxBits r.name with
         | u => readingMatches u k c && Nat.beq r.usSym (symOf u)
-               && (if memN r.name shadowedC then Nat.beq r.topSym absent else Nat.beq r.topSym (symOf u)))
+               && (if memN r.name shadowedC
+                   then Nat.beq r.topSym absent && memN r.name Ref.C14.shadowedByConstants
+                   else Nat.beq r.topSym (symOf u)))
     && (match addSymbolsAttr customCtxBits r.name with
         | u => Nat.beq r.customSym (symOf u) && (underscored r.name || readingMatches u k c))
   | _ => false
@@ -271,7 +274,9 @@ def prefixDictOk : Bool :=
 def refCodesOk : Bool :=
   (Ref.C14.prefixSymbolsS.map fun (s, k) => (Name.ofString s, k)) == Ref.C14.prefixSymbols
   && (Ref.C14.prefixWordsS.map fun (s, k) => (Name.ofString s, k)) == Ref.C14.prefixWords
+  && (Ref.C14.shadowedByConstantsS.map Name.ofString) == Ref.C14.shadowedByConstants
   && Name.ofString "°C" == Ref.C14.degreeSignC
+  && Name.ofChars deltaDegChars == Name.ofString "delta_deg" && [cpDelta] == "Δ".toList.map Char.toNat
   && Name.ofString "da" == daCode
   && Name.ofChars percentChars == Name.ofString "percent"
   && Name.ofChars degChars == Name.ofString "deg"
@@ -293,7 +298,7 @@ def namespacesClosed : Bool :=
   && topExtraC.isEmpty
   && (customExtraC.all fun (n, s) =>
         customLutT.contains n && Nat.beq s (symOf (addSymbolsAttr customCtxBits n)))
-  && (shadowedC.all fun n => invTree.contains n)
+  && (shadowedC.all fun n => invTree.contains n && memN n Ref.C14.shadowedByConstants)
   && customForeignC.isEmpty
   && invTree.size == invCount && allRows.length == invCount
 
